@@ -158,8 +158,92 @@ func (e *Engine) callFn(st *State, fr *Frame, callee *ssa.Function, args []Val, 
 		e.pendingParent = fr
 		return e.execFunc(st, callee, args, nil, fr.depth+1)
 	}
+	if outs, ok := e.pureLibFallback(st, fr, callee, args); ok {
+		return outs
+	}
 	fail("call to unmodelled function %s", name)
 	return nil
+}
+
+// pureLibFallback over-approximates a call to a library function that has no model: package-level functions of a
+// few standard packages that only compute values (all parameters and results are numbers, booleans, strings, byte
+// slices or error). Their results are arbitrary (a byte-slice result may be any memory, pre-existing or not);
+// the Append* family is the real append of an arbitrary byte sequence to its first argument (same cases and the same
+// frame obligation as the built-in). Everything proved after such a call holds whatever the function returns;
+// a clause that depends on what it returns cannot be proved and is reported. Not used inside specifications.
+var pureLibPkgs = map[string]bool{"strconv": true, "strings": true, "bytes": true, "unicode": true, "unicode/utf8": true,
+	"unicode/utf16": true, "math": true, "math/bits": true}
+
+func (e *Engine) pureLibFallback(st *State, fr *Frame, callee *ssa.Function, args []Val) ([]Outcome, bool) {
+	if st.spec || callee.Pkg == nil || !pureLibPkgs[callee.Pkg.Pkg.Path()] || callee.Signature.Recv() != nil || callee.Signature.Variadic() {
+		return nil, false
+	}
+	plain := func(t types.Type) bool {
+		if isError(t) {
+			return true
+		}
+		switch u := t.Underlying().(type) {
+		case *types.Basic:
+			return u.Kind() != types.UnsafePointer
+		case *types.Slice:
+			b, ok := u.Elem().Underlying().(*types.Basic)
+			return ok && b.Kind() == types.Uint8
+		}
+		return false
+	}
+	sig := callee.Signature
+	byteParams := 0
+	for i := 0; i < sig.Params().Len(); i++ {
+		t := sig.Params().At(i).Type()
+		if !plain(t) || isError(t) {
+			return nil, false
+		}
+		if _, ok := t.Underlying().(*types.Slice); ok {
+			byteParams++
+		}
+	}
+	for i := 0; i < sig.Results().Len(); i++ {
+		if !plain(sig.Results().At(i).Type()) {
+			return nil, false
+		}
+	}
+	name := callee.Name()
+	isAppend := strings.HasPrefix(name, "Append") && sig.Params().Len() > 0 && sig.Results().Len() == 1
+	if isAppend {
+		if _, ok := sig.Params().At(0).Type().Underlying().(*types.Slice); !ok {
+			return nil, false
+		}
+		if _, ok := sig.Results().At(0).Type().Underlying().(*types.Slice); !ok {
+			return nil, false
+		}
+	}
+	if byteParams > 0 && !isAppend && (strings.HasPrefix(name, "Encode") || strings.HasPrefix(name, "Decode") || strings.HasPrefix(name, "Put")) && callee.Pkg.Pkg.Path() != "unicode/utf8" {
+		return nil, false
+	}
+	if callee.Pkg.Pkg.Path() == "unicode/utf8" && name == "EncodeRune" {
+		return nil, false // writes its first argument
+	}
+	e.warn("call to %s has no model: its results are arbitrary (over-approximation)", callee.String())
+	if isAppend {
+		dst, ok := args[0].(SliceV)
+		if !ok {
+			return nil, false
+		}
+		saved := st.noPre
+		st.noPre = true
+		src := st.freshSlice(types.Typ[types.Uint8], "lib_"+name+"_src", false)
+		st.noPre = saved
+		src.Arr = SymSort(fresh("lib_"+name+"_bytes"), byteArrSort)
+		return e.doAppendBytes(st, fr, dst, src), true
+	}
+	var ret []Val
+	saved := st.noPre
+	st.noPre = true
+	for i := 0; i < sig.Results().Len(); i++ {
+		ret = append(ret, st.freshVal(sig.Results().At(i).Type(), "lib_"+name))
+	}
+	st.noPre = saved
+	return []Outcome{{st: st, ret: ret}}, true
 }
 
 func (e *Engine) invoke(st *State, fr *Frame, recv Val, method string, args []Val, c *ssa.CallCommon) []Outcome {
